@@ -222,3 +222,67 @@ func (e *Enc) applyDispatch(name string, ftc *FuncContract, c *ssa.CallCommon, i
 	}
 	return results
 }
+
+// ---- refinement of function-type contracts ----
+// A named function type with a contract (functype TagParser ...) states a protocol: its requires are proof
+// obligations at every call through a value of the type, its ensures are assumed there. For the package's own
+// functions whose address is taken and whose signature is that of the type, the protocol is checked on the body:
+// the requires are assumed at entry and every ensures is an obligation <fn>/refines/<type>/<label>. Functions
+// registered by applications are external: for them the protocol stays an assumption.
+
+type refinement struct {
+	name string
+	fc   *FuncContract
+}
+
+func (p *Prog) refinementsOf(fn *ssa.Function) []refinement {
+	if p.addrTaken == nil || !p.addrTaken[fn] || fn.Signature.Recv() != nil {
+		return nil
+	}
+	var names []string
+	for n, fc := range p.Contracts.Funcs {
+		if fc.Kind == "functype" && !fc.Flags["dispatch"] && len(fc.Ens) > 0 {
+			names = append(names, n)
+		}
+	}
+	sort.Strings(names)
+	var out []refinement
+	for _, n := range names {
+		obj := p.Types.Scope().Lookup(n)
+		if obj == nil {
+			continue
+		}
+		if s2, ok := obj.Type().Underlying().(*types.Signature); ok && types.Identical(s2, fn.Signature) {
+			out = append(out, refinement{n, p.Contracts.Funcs[n]})
+		}
+	}
+	return out
+}
+
+// refinementEnv: the function's environment with the protocol's declared parameter names bound positionally.
+func (e *Enc) refinementEnv(env *Env, fc *FuncContract) *Env {
+	out := &Env{e: env.e, vars: map[string]TV{}, state: env.state, old: env.old, now0: env.now0, bound: env.bound}
+	for k, v := range env.vars {
+		out.vars[k] = v
+	}
+	for i, n := range fc.Params {
+		if i < len(e.fn.Params) {
+			out.vars[n] = TV{T: e.vals[e.fn.Params[i]].T, Typ: e.fn.Params[i].Type()}
+		}
+	}
+	return out
+}
+
+func (e *Enc) assumeRefinedRequires() {
+	for _, rf := range e.p.refinementsOf(e.fn) {
+		env := e.refinementEnv(e.fnEnv(e.cur), rf.fc)
+		for _, cl := range rf.fc.Req {
+			t, err := env.Eval(cl.Expr)
+			if err != nil {
+				e.contractError(rf.name, cl, err, e.fn.Pos())
+				continue
+			}
+			e.assert(t.T)
+		}
+	}
+}
